@@ -194,6 +194,96 @@ fn streaming(ctx: &mut Ctx, rng: &mut ChaCha20Rng) {
     ctx.check(ok, "constant-size", "serialize", json!({"scheme": "streaming"}), || json!({"observed": seen}));
 }
 
+/// Combination proofs (open_combinations): every per-point proof has the size of a single opening, with the
+/// blinding part present exactly when a hiding polynomial takes part in a combination opened at that point.
+fn lc_proofs<S: Scheme>(ctx: &mut Ctx, rng: &mut ChaCha20Rng, per_point: fn(usize, bool) -> usize) {
+    use ark_poly_commit::{LCTerm, LinearCombination, PolynomialCommitment};
+    let d = [3usize, 7, 16, 33, 64][below(rng, 5)];
+    let cfg = Cfg { max_degree: d, num_vars: None, supported_degree: d, supported_hiding: 1, enforced: None };
+    let w = match make_world::<S>(&cfg, rng) {
+        Ok(w) => w,
+        Err(_) => return ctx.skipped("combination-proof-size", "setup refused"),
+    };
+    let npolys = range(rng, 2, 4);
+    // at least one hiding and one non-hiding polynomial, in random positions
+    let mut hid: Vec<bool> = (0..npolys).map(|_| rng.next_u32() % 2 == 0).collect();
+    let (a, b) = (below(rng, npolys), below(rng, npolys - 1));
+    let b = if b >= a { b + 1 } else { b };
+    hid[a] = true;
+    hid[b] = false;
+    let polys: Vec<LPoly<S>> = (0..npolys)
+        .map(|i| LabeledPolynomial::new(format!("p{}", i), S::gen_poly(&cfg, Shape::Full, range(rng, 1, d), rng), None, if hid[i] { Some(1) } else { None }))
+        .collect();
+    let c = match commit::<S>(&w.ck, &polys, rng.next_u64()) {
+        Ok(c) => c,
+        Err(_) => return ctx.skipped("combination-proof-size", "commit refused"),
+    };
+    let nlc = range(rng, 2, 4);
+    let mut lcs: Vec<LinearCombination<FOf<S>>> = Vec::new();
+    let mut lc_hiding: Vec<bool> = Vec::new();
+    for j in 0..nlc {
+        let mut lc = LinearCombination::empty(format!("{}{}", ["lc", "eq", "a_"][below(rng, 3)], j));
+        let mut h = false;
+        // the first two combinations: one all non-hiding, one with a hiding polynomial, in random order
+        let force: Option<bool> = if j < 2 { Some((j == 0) == (a < b)) } else { None };
+        for _ in 0..range(rng, 1, 3) {
+            let i = match force {
+                Some(true) => a,
+                Some(false) => b,
+                None => below(rng, npolys),
+            };
+            h |= hid[i];
+            lc.push((FOf::<S>::from(range(rng, 1, 9) as u64), LCTerm::PolyLabel(format!("p{}", i))));
+        }
+        if rng.next_u32() % 3 == 0 {
+            lc.push((FOf::<S>::from(5u64), LCTerm::One));
+        }
+        lcs.push(lc);
+        lc_hiding.push(h);
+    }
+    // each combination at its own point label; sometimes one more label opening several of them
+    let mut qs: QuerySet<PtOf<S>> = QuerySet::new();
+    let mut groups: std::collections::BTreeMap<String, bool> = Default::default();
+    for (j, lc) in lcs.iter().enumerate() {
+        let pl = format!("z{}", j);
+        qs.insert((lc.label().clone(), (pl.clone(), S::gen_point(&cfg, rng))));
+        groups.insert(pl, lc_hiding[j]);
+    }
+    if rng.next_u32() % 2 == 0 {
+        let z = S::gen_point(&cfg, rng);
+        let mut h = false;
+        for (j, lc) in lcs.iter().enumerate() {
+            if j == 0 || rng.next_u32() % 2 == 0 {
+                qs.insert((lc.label().clone(), ("w".to_string(), z.clone())));
+                h |= lc_hiding[j];
+            }
+        }
+        groups.insert("w".to_string(), h);
+    }
+    let tx = Tx::<S> { w, specs: vec![], polys, c, pre: vec![], commit_seed: 0 };
+    let mut r = crate::probe::mon_rng(rng.next_u64());
+    let res = crate::rt::attempt(|| PcOf::<S>::open_combinations(&tx.w.ck, lcs.iter(), tx.polys.iter(), tx.c.comms.iter(), &qs, &mut tx.sponge(), tx.c.states.iter(), Some(&mut r)));
+    let desc = json!({"degree": d, "hiding": hid, "combinations": lcs.iter().zip(&lc_hiding).map(|(l, h)| json!({"label": l.label(), "terms": l.len(), "has_hiding_polynomial": h})).collect::<Vec<_>>(),
+        "point_labels": groups});
+    let lp = match res {
+        Ok(p) => p,
+        Err(_) => return ctx.skipped("combination-proof-size", "open_combinations refused (reported under C06)"),
+    };
+    let proofs: Vec<ProofOf<S>> = lp.proof.clone().into();
+    let sizes: Vec<usize> = proofs.iter().map(|p| { let one: BatchProofOf<S> = vec![p.clone()].into(); sz(&one) - 8 }).collect();
+    let want: Vec<usize> = groups.values().map(|h| per_point(d, *h)).collect();
+    ctx.check(sizes == want, "combination-proof-size", "serialize", desc, || json!({"expected_per_point_label": want, "observed": sizes, "evals": lp.evals.as_ref().map(|e| e.len())}));
+}
+
+fn kzg_point_proof(_d: usize, hiding: bool) -> usize {
+    G1 + 1 + if hiding { FR } else { 0 }
+}
+
+fn ipa_point_proof(d: usize, hiding: bool) -> usize {
+    let rounds = ((d + 1).next_power_of_two()).trailing_zeros() as usize;
+    2 * (8 + rounds * JJ) + JJ + FR + 2 * (1 + if hiding { 32 } else { 0 })
+}
+
 /// modelled proof size for a coefficient matrix with `rows` rows
 fn model(n: usize, rows: usize, sec: usize, dist: (usize, usize), expansion: (usize, usize), pow2_codeword: bool, wf: bool) -> Option<usize> {
     let cols = (n + rows - 1) / rows;
@@ -311,6 +401,9 @@ pub fn run(ctx: &mut Ctx) {
     ctx.run_cases("pst13", n / 4, |ctx, _i, rng| pst13(ctx, rng));
     ctx.run_cases("mlpst", n / 4, |ctx, _i, rng| mlpst(ctx, rng));
     ctx.run_cases("ipa", n, |ctx, _i, rng| ipa(ctx, rng));
+    ctx.run_cases("marlin/combinations", n, |ctx, _i, rng| lc_proofs::<MarlinS<E381>>(ctx, rng, kzg_point_proof));
+    ctx.run_cases("sonic/combinations", n, |ctx, _i, rng| lc_proofs::<SonicS<E381>>(ctx, rng, kzg_point_proof));
+    ctx.run_cases("ipa/combinations", n, |ctx, _i, rng| lc_proofs::<IpaS>(ctx, rng, ipa_point_proof));
     ctx.run_cases("hyrax", n / 2, |ctx, _i, rng| hyrax(ctx, rng));
     ctx.run_cases("streaming", n / 4, |ctx, _i, rng| streaming(ctx, rng));
     ctx.run_cases("ligero-uni", n / 4, |ctx, _i, rng| linear::<UniLigeroS>(ctx, rng, (4, 1), true, None));
